@@ -393,6 +393,7 @@ int main(int argc, char** argv)
     int* cur = (int*) mmap(nullptr, sizeof(int), PROT_READ | PROT_WRITE, MAP_SHARED | MAP_ANONYMOUS, -1, 0);
     *cur = 0;
     int next = 0;
+    int deaths = 0;
     while (next < ncases)
     {
         std::fflush(stdout);
@@ -403,7 +404,7 @@ int main(int argc, char** argv)
             for (int cs = next; cs < ncases; ++cs)
             {
                 *cur = cs;
-                alarm(30);
+                alarm(12);
                 vctl::Rng rng(seed * 1000003ull + (std::uint64_t) cs);    // per-case stream: a restart does not shift later cases
                 if (cs % 2 == 0)
                     case_handoff(cs, rng, nullptr, 0, 'V', 0);
@@ -426,6 +427,12 @@ int main(int argc, char** argv)
         std::printf("DIED %s %d %s\n", i % 2 == 0 ? "HO" : "JN", i, what);
         std::fflush(stdout);
         next = i + 1;
+        if (++deaths >= 12)
+        {
+            std::printf("SKIPPED LOCK %d cases after %d abnormal terminations\n", ncases - next, deaths);
+            std::fflush(stdout);
+            break;
+        }
     }
     return 0;
 }
